@@ -561,8 +561,9 @@ class ProgGen:
                     [['fn', [x], ['let', [], ['set', [x, ['+', x, 1]]], x]], n], ['list', f, x]]
         if k == 'variadic2':
             # the rest parameter is a binding of the function like any other, also when the name exists further out
-            return [['define', x, ['quote', [9, 9, 9]]], [['fn', x, ['length', x]], 1, 2], ['let', [[y + 'v', 5]], [['fn', y + 'v', ['first', y + 'v']], n, 2]],
-                    ['define', g, 7], [['fn', g, ['set', [g, 0]], g], 1], g, ['length', x]]
+            v = self.fresh()      # (a name of its own: the rest of the program takes the alphabet's names for integers)
+            return [['define', v, ['quote', [9, 9, 9]]], [['fn', v, ['length', v]], 1, 2], ['let', [[y + 'v', 5]], [['fn', y + 'v', ['first', y + 'v']], n, 2]],
+                    ['define', g, 7], [['fn', g, ['set', [g, 0]], g], 1], g, ['length', v]]
         if k == 'variadic':
             return [['define', f, ['fn', 'args', ['length', 'args']]], [f], [f, 1, 2, n], [['fn', 'xs', ['first', 'xs']], n, 2]]
         if k == 'setdeep':
